@@ -74,12 +74,26 @@ func opsFor(a cAli) []string {
 	if !a.Bag {
 		ops = append(ops, alignOps...)
 	}
-	if a.Alphabet == "nt" {
+	d := a.declared()
+	if d == "nt" || d == "unknown" {
 		ops = append(ops, ntOps...)
 		if !a.Bag {
 			ops = append(ops, ntAlignOps...)
 		}
-	} else if !a.Bag {
+	}
+	if (d == "aa" || d == "unknown") && !a.Bag {
+		ops = append(ops, aaAlignOps...)
+	}
+	return ops
+}
+
+// every operation, also those of the other alphabet (they must refuse and leave the input alone)
+func allOpsFor(a cAli) []string {
+	ops := append([]string{}, bagOps...)
+	ops = append(ops, ntOps...)
+	if !a.Bag {
+		ops = append(ops, alignOps...)
+		ops = append(ops, ntAlignOps...)
 		ops = append(ops, aaAlignOps...)
 	}
 	return ops
@@ -87,6 +101,9 @@ func opsFor(a cAli) []string {
 
 func genOp(t *rapid.T, a cAli) qop {
 	ops := opsFor(a)
+	if rapid.IntRange(0, 9).Draw(t, "anyop") == 0 {
+		ops = allOpsFor(a)
+	}
 	var o qop
 	// hashed: rapid alone prefers the first entries of a list
 	o.Op = ops[splitmix(rapid.Uint64().Draw(t, "op"))%uint64(len(ops))]
@@ -152,8 +169,12 @@ func mod(x, n int) int {
 }
 
 // ntFor gives a nucleotide sequence set matching a protein alignment (3 nucleotides per residue)
-func ntFor(a cAli, seed int64) align.SeqBag {
+func ntFor(a cAli, seed int64, declaredNT bool) align.SeqBag {
 	nt := align.NewSeqBag(align.NUCLEOTIDS)
+	if !declaredNT && uint64(seed)>>5%4 == 0 {
+		// declared UNKNOWN and never auto-detected (CodonAlign refuses it)
+		nt = align.NewSeqBag(align.UNKNOWN)
+	}
 	x := uint64(seed)
 	for _, r := range a.Rows {
 		var b []byte
@@ -184,18 +205,42 @@ const keyPhaseNil = "phase-no-positive-alignment"
 // phaseSafe predicts, on fresh copies and with the aligner the phaser uses, whether every
 // sequence has at least one alignment of positive score with a reference (or meets an error
 // first): otherwise Phase panics inside a goroutine, which cannot be recovered
-func phaseSafe(a cAli, haveRef bool, ref string, translate, reverse bool) (safe bool) {
+// phaseRefs builds the reference set given to Phase (nil: the longest ORF is searched): declared
+// nucleotide, declared UNKNOWN and never auto-detected, or a protein reference declared as such
+// whose letters are all nucleotide codes too
+func phaseRefs(c qCase, o qop) align.SeqBag {
+	if o.I%2 != 0 {
+		return nil
+	}
+	n := len(c.Ali.Rows)
+	ref := strings.ReplaceAll(c.Ali.Rows[mod(o.J, n)].Seq, "-", "")
+	var x align.SeqBag
+	switch uint64(o.Seed) >> 8 % 4 {
+	case 1:
+		x = align.NewSeqBag(align.UNKNOWN)
+	case 2:
+		x = align.NewSeqBag(align.AMINOACIDS)
+		b := []byte(ref)
+		for i := range b {
+			b[i] = "ACDGHKMNRSTVWY"[int(b[i])%14]
+		}
+		ref = string(b)
+	default:
+		x = align.NewSeqBag(align.NUCLEOTIDS)
+	}
+	x.AddSequence("ref", ref, "ref comment")
+	return x
+}
+
+func phaseSafe(a cAli, given func() align.SeqBag, translate, reverse bool) (safe bool) {
 	defer func() {
 		if recover() != nil {
 			safe = false
 		}
 	}()
 	seqs := buildContainer(a)
-	var refs align.SeqBag
-	if haveRef {
-		refs = align.NewSeqBag(align.NUCLEOTIDS)
-		refs.AddSequence("ref", ref, "")
-	} else {
+	refs := given()
+	if refs == nil {
 		orf, err := seqs.LongestORF(reverse)
 		if err != nil {
 			return true // Phase returns this error before starting any goroutine
@@ -458,18 +503,13 @@ func runQuery(test string, c qCase, o qop, sb align.SeqBag) (res queryResult) {
 			res.ok = false
 			return
 		}
-		var orfs align.SeqBag
-		ref := ""
-		if o.I%2 == 0 {
-			ref = strings.ReplaceAll(c.Ali.Rows[mod(o.J, n)].Seq, "-", "")
-			x := align.NewSeqBag(align.NUCLEOTIDS)
-			x.AddSequence("ref", ref, "ref comment")
-			watch(x)
-			orfs = x
+		orfs := phaseRefs(c, o)
+		if orfs != nil {
+			watch(orfs)
 		}
 		// a sequence without any positively scoring alignment makes a worker goroutine of Phase
 		// dereference nil (the process dies): screened out, see FINDINGS.md
-		if os.Getenv("C19_NO_PRECHECK") == "" && !phaseSafe(c.Ali, o.I%2 == 0, ref, o.B1, o.B2) { // the variable is a development aid: lets the child die
+		if os.Getenv("C19_NO_PRECHECK") == "" && !phaseSafe(c.Ali, func() align.SeqBag { return phaseRefs(c, o) }, o.B1, o.B2) { // the variable is a development aid: lets the child die
 			res.ok = false
 			res.excluded = keyPhaseNil
 			return
@@ -528,7 +568,7 @@ func runQuery(test string, c qCase, o qop, sb align.SeqBag) (res queryResult) {
 		_, e := al.RandSubAlign(o.I, o.B1)
 		errOK(e)
 	case "codonalign":
-		nt := ntFor(c.Ali, o.Seed)
+		nt := ntFor(c.Ali, o.Seed, false)
 		watch(nt)
 		_, e := al.CodonAlign(nt)
 		errOK(e)
